@@ -16,15 +16,21 @@ theorem residualPolicy_id {c : PolicyResult} {p q : Policy} (h : residualPolicy 
     q.id = p.id ∧ q.effect = p.effect := by
   cases c <;> simp [residualPolicy] at h <;> subst h <;> exact ⟨rfl, rfl⟩
 
+/-- class `c` of the re-evaluated residual policy vs. concrete outcome `o`: satisfied exactly together, and the
+    re-evaluation is neither residual nor stuck -/
+def SatAgrees (c : PolicyResult) (o : Outcome) : Prop :=
+  match c with
+  | .sat => o = .sat
+  | .unsat => o ≠ .sat
+  | .err => o ≠ .sat
+  | .residual _ => False
+  | .stuck => False
+
 /-- the residual policy of `p`, re-evaluated under the substitution on the concretised request and store,
     is satisfied exactly when `p` is satisfied concretely (and evaluation is not stuck / residual) -/
 def PolicyAgrees (σ : Mapper) (preq : PRequest) (pes : PEntities) (req' : Request) (es' : Entities) (p : Policy) : Prop :=
   ∃ q, residualPolicy (partialEvaluate [] preq pes p) p = some q ∧
-    (match partialEvaluate σ (.ofConcrete req') (.ofConcrete es') q with
-     | .sat => p.outcome req' es' = .sat
-     | .unsat => p.outcome req' es' ≠ .sat
-     | .err => p.outcome req' es' ≠ .sat
-     | _ => False)
+    SatAgrees (partialEvaluate σ (.ofConcrete req') (.ofConcrete es') q) (p.outcome req' es')
 
 section
 variable (preq : PRequest) (pes : PEntities) (ps : List Policy)
